@@ -25,7 +25,17 @@ use std::sync::Arc;
 use vharness::util::*;
 
 const HEADER: &str = "From RV Require Import Corr.C02.\nLocal Open Scope string_scope.\nLocal Open Scope list_scope.\nLocal Open Scope nat_scope.";
-const KEYPOOL: [&str; 8] = ["a", "b", "k1", "k2", "key:3", "user:7", "x", "zz"];
+/// Key names: plain ones, Redis-Cluster hash-tag shapes (`{tag}`, text around a tag, two names
+/// sharing a tag, empty tag, unbalanced braces), multi-byte UTF-8, and names of 7/8/9/16/17
+/// bytes (SipHash block boundaries).  Every entry path must send a name to the same shard.
+const KEYPOOL: [&str; 28] = [
+    "a", "b", "k1", "k2", "key:3", "user:7", "x", "zz",
+    "{a}", "x{a}y", "{a}:b", "{a}:c", "{}", "{tenant-0}:counter", "{u1}:name", "pre{u1}", "{", "}{", "a{b", "{}{z}",
+    "\u{e9}", "\u{43a}\u{43b}\u{44e}\u{447}", "\u{65e5}\u{672c}\u{8a9e}",
+    "abcdefg", "abcdefgh", "abcdefghi", "0123456789abcdef", "0123456789abcdefg",
+];
+const JUNK_KEY: &str = "c02-junk";
+const PAD_KEY: &str = "c02-pad";
 /// GET then SET of one key inside one script: one atomic operation of two primitives.
 const SCRIPT_GETSET: &str = "local v = redis.call('GET', KEYS[1]); local s = redis.call('SET', KEYS[1], ARGV[1]); return {v or false, s}";
 /// INCR then GET inside one script.
@@ -503,21 +513,72 @@ async fn run_step(state: &ShardedActorState, keys: &[String], st: &Step) -> Done
     Done { inv, ret, via: via.to_string(), per_key }
 }
 
+/// A request a saboteur starts and gives up on.
+#[derive(Clone, Debug)]
+struct SabStep {
+    step: Step,
+    /// key index `nkeys` in `step.items` = the junk key (never part of a window)
+    how: u8, // 0: poll once then drop; 1: tokio::time::timeout(0); 2: spawn + abort; 3: spawn, yield, abort
+    /// enters the history as a pending operation (only requests that write)
+    record: bool,
+}
+
+async fn poll_once<F: std::future::Future>(fut: F) -> Option<F::Output> {
+    let mut fut = std::pin::pin!(fut);
+    std::future::poll_fn(|cx| match fut.as_mut().poll(cx) {
+        std::task::Poll::Ready(v) => std::task::Poll::Ready(Some(v)),
+        std::task::Poll::Pending => std::task::Poll::Ready(None),
+    })
+    .await
+    // `fut` is dropped here: the request is abandoned after its message was sent
+}
+
+/// Start the request, abandon it; `Some` if it completed before it could be abandoned.
+async fn abandon(state: &ShardedActorState, keys: &Arc<Vec<String>>, sab: &SabStep) -> Option<Done> {
+    match sab.how {
+        0 => poll_once(run_step(state, keys, &sab.step)).await,
+        1 => tokio::time::timeout(std::time::Duration::ZERO, run_step(state, keys, &sab.step)).await.ok(),
+        _ => {
+            let (st, ks, sp) = (state.clone(), keys.clone(), sab.step.clone());
+            let h = tokio::spawn(async move { run_step(&st, &ks, &sp).await });
+            if sab.how == 3 {
+                tokio::task::yield_now().await;
+            }
+            h.abort();
+            h.await.ok()
+        }
+    }
+}
+
 struct CaseRun {
     windows: Vec<Window>,
     panicked: Option<String>,
+    abandoned: usize,
+    abandoned_pooled: usize,
+    completed_before_abandon: usize,
+    padding_ops: usize,
 }
 
 fn run_case(rt: &tokio::runtime::Runtime, nshards: usize, keys: &[String], mode: Mode,
-            scripts: &[Vec<Vec<Step>>], rounds: usize, wave: bool) -> CaseRun {
-    let keys: Arc<Vec<String>> = Arc::new(keys.to_vec());
+            scripts: &[Vec<Vec<Step>>], rounds: usize, wave: bool,
+            sabs: &[Vec<Vec<SabStep>>], padding: usize) -> CaseRun {
+    let nk = keys.len();
+    // indices nk and nk+1: the junk key and the padding key (no windows)
+    let mut allkeys = keys.to_vec();
+    allkeys.push(JUNK_KEY.to_string());
+    allkeys.push(PAD_KEY.to_string());
+    let keys: Arc<Vec<String>> = Arc::new(allkeys);
     let scripts: Arc<Vec<Vec<Vec<Step>>>> = Arc::new(scripts.to_vec());
+    let sabs: Arc<Vec<Vec<Vec<SabStep>>>> = Arc::new(sabs.to_vec());
     rt.block_on(async move {
         let state = ShardedActorState::with_shards(nshards);
         let nclients = scripts.len();
         let mut windows: Vec<Window> = Vec::new();
-        let mut init: Vec<Option<Vec<u8>>> = vec![None; keys.len()];
+        let mut init: Vec<Option<Vec<u8>>> = vec![None; nk];
         let mut panicked = None;
+        let (mut abandoned, mut abandoned_pooled, mut completed_before_abandon, mut padding_ops) = (0usize, 0usize, 0usize, 0usize);
+        let mut pad_value: Option<Vec<u8>> = None;
+        let mut pad_serial = 0u64;
         for round in 0..rounds {
             let barrier = Arc::new(tokio::sync::Barrier::new(nclients));
             let mut handles = Vec::new();
@@ -539,6 +600,45 @@ fn run_case(rt: &tokio::runtime::Runtime, nshards: usize, keys: &[String], mode:
                     out
                 }));
             }
+            // saboteurs: start requests on the shared keys and abandon them mid-flight
+            let mut sab_handles = Vec::new();
+            for sb in 0..sabs.len() {
+                let state = state.clone();
+                let keys = keys.clone();
+                let sabs = sabs.clone();
+                sab_handles.push(tokio::spawn(async move {
+                    let mut completed: Vec<Done> = Vec::new();
+                    let mut pend: Vec<(u64, SabStep)> = Vec::new();
+                    let mut n_pooled = 0usize;
+                    let mut kept_ghosts = 0usize;
+                    for sab in sabs[sb][round].iter() {
+                        let inv = stamp();
+                        match abandon(&state, &keys, sab).await {
+                            // it completed before it could be abandoned: an ordinary completed
+                            // operation.  Ghost requests (not recorded) are kept in the history
+                            // only up to 5 per round (window size), except when the reply has
+                            // a shape the command cannot produce - that is always kept.
+                            Some(d) => {
+                                let shapes = sab.step.items.iter().all(|(k, p)| d.per_key.get(k).map(|(ps, rs)| {
+                                    ps.iter().zip(rs.iter()).filter(|(q, _)| *q == p).all(|(q, r)| shape_ok(q, r))
+                                }).unwrap_or(true));
+                                if sab.record || !shapes || kept_ghosts < 5 {
+                                    if !sab.record { kept_ghosts += 1; }
+                                    completed.push(d);
+                                }
+                            }
+                            None => {
+                                if sab.step.via == Via::Pooled {
+                                    n_pooled += 1;
+                                }
+                                pend.push((inv, sab.clone()));
+                            }
+                        }
+                        tokio::task::yield_now().await;
+                    }
+                    (completed, pend, n_pooled)
+                }));
+            }
             let mut done: Vec<Done> = Vec::new();
             for h in handles {
                 match h.await {
@@ -546,9 +646,62 @@ fn run_case(rt: &tokio::runtime::Runtime, nshards: usize, keys: &[String], mode:
                     Err(e) => panicked = Some(format!("client task failed: {:?}", e)),
                 }
             }
+            let mut pend: Vec<(u64, SabStep)> = Vec::new();
+            for h in sab_handles {
+                match h.await {
+                    Ok((c, p, np)) => {
+                        completed_before_abandon += c.len();
+                        abandoned += p.len();
+                        abandoned_pooled += np;
+                        done.extend(c);
+                        pend.extend(p);
+                    }
+                    Err(e) => panicked = Some(format!("saboteur task failed: {:?}", e)),
+                }
+            }
+            // a completed request on the junk key answered with an impossible shape
+            for d in done.iter() {
+                if let Some((ps, rs)) = d.per_key.get(&nk) {
+                    if !ps.iter().zip(rs.iter()).all(|(p, r)| shape_ok(p, r)) {
+                        windows.push(Window { key: JUNK_KEY.to_string(), round, init: None,
+                            ops: vec![OpRec { id: 0, inv: 0, ret: 1, prims: ps.clone(), reps: rs.clone(), pending: false, via: d.via.clone() }] });
+                    }
+                }
+            }
+            // padding: cycle the response pool with pooled requests of one sequential client on
+            // its own key; every reply is determined exactly (SET -> OK, GET -> the last value)
+            for j in 0..padding {
+                let kb = Bytes::from(PAD_KEY.as_bytes().to_vec());
+                let (prim, rep, i0, i1);
+                if j % 2 == 0 {
+                    pad_serial += 1;
+                    let v = format!("pad{}", pad_serial).into_bytes();
+                    i0 = stamp();
+                    let r = state.pooled_fast_set(kb, Bytes::from(v.clone())).await;
+                    i1 = stamp();
+                    prim = Prim::Set(v);
+                    rep = canon(&r);
+                } else {
+                    i0 = stamp();
+                    let r = state.pooled_fast_get(kb).await;
+                    i1 = stamp();
+                    prim = Prim::Get;
+                    rep = canon(&r);
+                }
+                padding_ops += 1;
+                let (nx, want) = apply(&pad_value, &prim);
+                if rep != want {
+                    // a one-operation window on the padding key: not linearizable from the known value
+                    let _ = (i0, i1);
+                    windows.push(Window { key: PAD_KEY.to_string(), round, init: pad_value.clone(),
+                        ops: vec![OpRec { id: 0, inv: 0, ret: 1, prims: vec![prim.clone()], reps: vec![rep], pending: false,
+                                          via: format!("padding {} #{}", if j % 2 == 0 { "pooled_fast_set" } else { "pooled_fast_get" }, j) }] });
+                }
+                pad_value = nx;
+            }
             // barrier reads: one per key, through the path class of this case
             let mut finals: Vec<(u64, u64, Rep)> = Vec::new();
-            for k in 0..keys.len() {
+            for k in 0..nk {
                 let inv = stamp();
                 let r = if mode == Mode::FastOnly {
                     state.fast_get(Bytes::from(keys[k].clone().into_bytes())).await
@@ -558,31 +711,44 @@ fn run_case(rt: &tokio::runtime::Runtime, nshards: usize, keys: &[String], mode:
                 let ret = stamp();
                 finals.push((inv, ret, canon(&r)));
             }
-            for k in 0..keys.len() {
+            for k in 0..nk {
                 let mut ops: Vec<OpRec> = Vec::new();
                 for d in done.iter() {
                     if let Some((ps, rs)) = d.per_key.get(&k) {
-                        ops.push(OpRec { id: 0, inv: d.inv, ret: d.ret, prims: ps.clone(), reps: rs.clone(), via: d.via.clone() });
+                        ops.push(OpRec { id: 0, inv: d.inv, ret: d.ret, prims: ps.clone(), reps: rs.clone(), via: d.via.clone(), pending: false });
+                    }
+                }
+                // abandoned requests that write this key: pending forever (a pending read is dropped)
+                for (inv, sab) in pend.iter() {
+                    if !sab.record {
+                        continue;
+                    }
+                    let ps: Vec<Prim> = sab.step.items.iter().filter(|(kk, _)| *kk == k).map(|(_, p)| p.clone()).collect();
+                    if ps.iter().any(|p| !matches!(p, Prim::Get)) {
+                        ops.push(OpRec { id: 0, inv: *inv, ret: 0, prims: ps, reps: vec![], pending: true,
+                                         via: format!("ABANDONED {:?} (how {})", sab.step.via, sab.how) });
                     }
                 }
                 ops.sort_by_key(|o| o.inv);
                 let (inv, ret, rep) = finals[k].clone();
-                ops.push(OpRec { id: 0, inv, ret, prims: vec![Prim::Get], reps: vec![rep.clone()],
+                ops.push(OpRec { id: 0, inv, ret, prims: vec![Prim::Get], reps: vec![rep.clone()], pending: false,
                                  via: if mode == Mode::FastOnly { "barrier fast_get".into() } else { "barrier execute(GET)".into() } });
                 // stamps -> ranks inside the window
-                let mut all: Vec<u64> = ops.iter().flat_map(|o| [o.inv, o.ret]).collect();
+                let mut all: Vec<u64> = ops.iter().flat_map(|o| if o.pending { vec![o.inv] } else { vec![o.inv, o.ret] }).collect();
                 all.sort();
                 let rank = |x: u64| all.binary_search(&x).unwrap() as u64;
                 for (j, o) in ops.iter_mut().enumerate() {
                     o.id = j;
                     o.inv = rank(o.inv);
-                    o.ret = rank(o.ret);
+                    if !o.pending {
+                        o.ret = rank(o.ret);
+                    }
                 }
                 windows.push(Window { key: keys[k].clone(), round, init: init[k].clone(), ops });
                 init[k] = match rep { Rep::Val(v) => v, _ => None };
             }
         }
-        CaseRun { windows, panicked }
+        CaseRun { windows, panicked, abandoned, abandoned_pooled, completed_before_abandon, padding_ops }
     })
 }
 
@@ -591,7 +757,7 @@ fn overlap_pairs(w: &Window) -> usize {
     for i in 0..w.ops.len() {
         for j in i + 1..w.ops.len() {
             let (a, b) = (&w.ops[i], &w.ops[j]);
-            if a.inv < b.ret && b.inv < a.ret {
+            if !a.pending && !b.pending && a.inv < b.ret && b.inv < a.ret {
                 n += 1;
             }
         }
@@ -640,11 +806,14 @@ fn main() {
     let eval = args.get("eval", 0) == 1;
     let wide = args.get("wide", 0) == 1; // shard counts {1,2,4,16} instead of {1,4}
     let workers = args.get("workers", 4) as usize;
+    let sab_pct = args.get("sabotage", 35);
     out.nontrivial_rule = format!(
-        "one case = one concurrent run of the real ShardedActorState on a {}-worker multi-thread tokio runtime: 2..{} client tasks, 2-4 rounds separated by barriers, <= 14 commands per round over 1-3 shared keys, {} shard counts, entry points execute / fast_* / pooled_fast_* / fast_batch_*_pipeline{}; mixed path classes on > 1 shard: {}; per round and key one window (<= 15 ops incl. the barrier read) judged by Coq lin_check and by the harness's own search; non-trivial = the case has at least one window in which two operations on the same key overlap in time; distinct by the printed histories. Thread scheduling is NOT derived from the seed: the client scripts of case i are (seed,i)-determined, the interleavings are explored, not replayable bit for bit; a failing window is stored in full in the replay file and re-judged by --replay",
-        workers, max_clients, if wide { "{1,2,4,16}" } else { "{1,4}" }, if eval { " / EVAL scripts (GET+SET, INCR+GET on one key)" } else { "" },
+        "one case = one concurrent run of the real ShardedActorState on a {}-worker multi-thread tokio runtime: 2..{} client tasks, 2-4 rounds separated by barriers, <= 14 commands per round over 1-3 shared keys, {} shard counts, entry points execute / fast_* / pooled_fast_* / fast_batch_*_pipeline{}; mixed path classes on > 1 shard: {}; per round and key one window (<= 15 ops incl. the barrier read) judged by Coq lin_check and by the harness's own search; non-trivial = the case has at least one window in which two operations on the same key overlap in time; distinct by the printed histories. Thread scheduling is NOT derived from the seed: the client scripts of case i are (seed,i)-determined, the interleavings are explored, not replayable bit for bit; a failing window is stored in full in the replay file and re-judged by --replay. Key names: plain, hash-tag shapes ({{a}}, x{{a}}y, {{a}}:b, {{}}, unbalanced braces), multi-byte UTF-8, 7/8/9/16/17-byte names. CANCELLATION: in ~{}% of the cases 1-2 saboteur tasks run beside the clients and start pooled / fast / batch / generic / EVAL requests on the shared keys and on a junk key and abandon them mid-flight (future polled once then dropped, tokio::time::timeout(0), spawn + JoinHandle::abort); an abandoned request that writes enters the window as a PENDING operation (may take effect at any instant after its invocation, or never - the search tries every subset), abandoned reads are dropped; after the saboteurs of a round have finished, 72-96 pooled SET/GET of one sequential client on a padding key cycle the 64-slot response pool (every padding reply is determined exactly and checked); 20% of all cases run on a 1-worker runtime. A reply whose shape is impossible for its command (GET answered +OK, SET answered a bulk) is reported as such",
+        sab_pct, workers, max_clients, if wide { "{1,2,4,16}" } else { "{1,4}" }, if eval { " / EVAL scripts (GET+SET, INCR+GET on one key)" } else { "" },
         if mixed_multishard { "enabled" } else { "disabled (one class per case) until the C03 routing repair lands" });
     let rt = tokio::runtime::Builder::new_multi_thread().worker_threads(workers).enable_all().build().unwrap();
+    // all tasks of a case on ONE worker thread: interleaving only at await points
+    let rt1 = tokio::runtime::Builder::new_multi_thread().worker_threads(1).enable_all().build().unwrap();
 
     let range: Vec<u64> = match args.only { Some(i) => vec![i], None => (0..args.n).collect() };
     for i in range {
@@ -702,10 +871,67 @@ fn main() {
             }).collect()
         }).collect();
 
-        let run = match std::panic::catch_unwind(std::panic::AssertUnwindSafe(|| run_case(&rt, nshards, &keys, mode, &scripts, rounds, wave))) {
+        // ---- cancellation: saboteur scripts (seed-determined like the client scripts)
+        let single_worker = rng.gen_bool(0.2);
+        let sabotage = (nshards == 1 || mixed_multishard) && rng.gen_range(0..100) < sab_pct;
+        let mut sabs: Vec<Vec<Vec<SabStep>>> = Vec::new();
+        let mut padding = 0usize;
+        if sabotage {
+            padding = rng.gen_range(72..=96);
+            let nsab = rng.gen_range(1..=2usize);
+            for sb in 0..nsab {
+                let mut per_round = Vec::new();
+                for _ in 0..rounds {
+                    let attempts = rng.gen_range(6..=20usize);
+                    let mut recorded = 0usize;
+                    let mut v = Vec::new();
+                    for _ in 0..attempts {
+                        let how = rng.gen_range(0..4u8);
+                        let c = rng.gen_range(0..100);
+                        if c < 25 && recorded < 2 {
+                            // any command of the case's repertoire on a shared key; pending if it writes
+                            let mut st = gen_step(&mut rng, Mode::Mixed, nkeys, 90 + sb, &mut serial, eval);
+                            st.yield_before = false;
+                            if st.items.iter().any(|(_, p)| !matches!(p, Prim::Get)) {
+                                recorded += 1;
+                            }
+                            v.push(SabStep { step: st, how, record: true });
+                        } else {
+                            // ghost requests: reads of shared keys / reads and writes of the junk key, mostly pooled
+                            let via = match rng.gen_range(0..10) { 0 => Via::Fast, 1 => Via::Generic, _ => Via::Pooled };
+                            let junk = rng.gen_bool(0.4);
+                            let k = if junk { nkeys } else { rng.gen_range(0..nkeys) };
+                            let p = if junk && rng.gen_bool(0.5) { serial += 1; Prim::Set(format!("junk{}", serial).into_bytes()) } else { Prim::Get };
+                            v.push(SabStep { step: Step { via, items: vec![(k, p)], script: 0, yield_before: false }, how, record: false });
+                        }
+                    }
+                    per_round.push(v);
+                }
+                sabs.push(per_round);
+            }
+        }
+
+        let the_rt = if single_worker { &rt1 } else { &rt };
+        let run = match std::panic::catch_unwind(std::panic::AssertUnwindSafe(|| run_case(the_rt, nshards, &keys, mode, &scripts, rounds, wave, &sabs, padding))) {
             Ok(r) => r,
-            Err(_) => CaseRun { windows: vec![], panicked: Some("panic while driving the case".into()) },
+            Err(_) => CaseRun { windows: vec![], panicked: Some("panic while driving the case".into()), abandoned: 0, abandoned_pooled: 0, completed_before_abandon: 0, padding_ops: 0 },
         };
+        out.count(if single_worker { "runtime:1-worker" } else { "runtime:multi-worker" });
+        out.count(if sabotage { "sabotage:yes" } else { "sabotage:no" });
+        if sabotage {
+            out.count(&format!("abandoned_requests:{}", match run.abandoned { 0 => "0", 1..=9 => "1-9", 10..=29 => "10-29", 30..=59 => "30-59", _ => "60+" }));
+            out.count(&format!("abandoned_pooled:{}", match run.abandoned_pooled { 0 => "0", 1..=9 => "1-9", 10..=29 => "10-29", _ => "30+" }));
+            *out.dist.entry("total_abandoned".into()).or_insert(0) += run.abandoned as u64;
+            *out.dist.entry("total_abandoned_pooled".into()).or_insert(0) += run.abandoned_pooled as u64;
+            *out.dist.entry("total_completed_before_abandon".into()).or_insert(0) += run.completed_before_abandon as u64;
+            *out.dist.entry("total_padding_pooled_ops".into()).or_insert(0) += run.padding_ops as u64;
+            out.impl_checks += run.padding_ops as u64;
+            let pend: usize = run.windows.iter().map(|w| w.ops.iter().filter(|o| o.pending).count()).sum();
+            *out.dist.entry("total_pending_ops_in_windows".into()).or_insert(0) += pend as u64;
+        }
+        for k in keys.iter() {
+            out.count(if k.contains('{') || k.contains('}') { "keyshape:braces" } else if !k.is_ascii() { "keyshape:multibyte" } else if [7, 8, 9, 16, 17].contains(&k.len()) { "keyshape:block-boundary" } else { "keyshape:plain" });
+        }
         out.count(&format!("shards:{}", nshards));
         out.count(&format!("clients:{}", nclients));
         out.count(&format!("mode:{:?}", mode));
@@ -733,14 +959,22 @@ fn main() {
         out.count(if overlaps > 0 { "overlap:yes" } else { "overlap:no" });
         out.count(&format!("overlapping_pairs:{}", match overlaps { 0 => "0", 1..=3 => "1-3", 4..=9 => "4-9", 10..=29 => "10-29", _ => "30+" }));
         if !bad.is_empty() {
-            out.violation(i, "per-key history of a concurrent run is not linearizable", json!({
+            let wrong_shape = run.windows.iter().any(|w| !window_shapes_ok(w));
+            let what = if wrong_shape {
+                "a command was answered with a reply of a shape it cannot produce (a reply that belongs to another request); per-key history not linearizable"
+            } else {
+                "per-key history of a concurrent run is not linearizable"
+            };
+            out.violation(i, what, json!({
                 "shards": nshards, "clients": nclients, "mode": format!("{:?}", mode), "keys": keys,
+                "sabotage": sabotage, "abandoned_requests": run.abandoned, "abandoned_pooled_requests": run.abandoned_pooled,
+                "single_worker_runtime": single_worker,
                 "failing_windows": bad,
                 "note": "the schedule is not derived from the seed; this file holds the full failing window(s); ./check C02 --replay re-judges them in Coq (lin_check) and with the harness's search"}));
         }
         let term = format!("K2 {}", clist(terms.iter(), |t| format!("({})", t)));
         if args.only.is_some() {
-            println!("case {}: shards {} clients {} mode {:?} keys {:?} rounds {} wave {}", i, nshards, nclients, mode, keys, rounds, wave);
+            println!("case {}: shards {} clients {} mode {:?} keys {:?} rounds {} wave {} sabotage {} (abandoned {}, pooled {}) single-worker {}", i, nshards, nclients, mode, keys, rounds, wave, sabotage, run.abandoned, run.abandoned_pooled, single_worker);
             for (w, t) in run.windows.iter().zip(terms.iter()) {
                 println!("  key {:?} round {} ({} ops, {} overlapping pairs): {}", w.key, w.round, w.ops.len(), overlap_pairs(w), t);
             }
